@@ -47,9 +47,13 @@ Proof. split; vm_compute; reflexivity. Qed.
 (** c16_height_tight_partial at k = 4: the middle-insert family; the heights the executor reports for the same families at 4096 *)
 Example ex_height_tight : height (fam step_middle (2 ^ 4)) <= 3 * Z.log2 (2 ^ 4 + 1) + 12.
 Proof.
-  assert (Hk : 0 <= 4 <= 13) by lia.
+  assert (Hk : 0 <= 4 <= 10) by lia.
   pose proof (c16_height_tight_partial 4 Hk) as H. cbv zeta in H.
-  rewrite Forall_forall in H. apply (H step_middle). simpl. tauto.
+  rewrite Forall_forall in H.
+  assert (Hin : In step_middle [step_append; step_front; step_rotate; step_deque; step_middle; step_mergebuild])
+    by (do 4 right; left; reflexivity).
+  destruct (H step_middle Hin) as (H1 & _).
+  exact H1.
 Qed.
 Example ex_height_tight_values : (height (fam step_deque 4096), height (fam step_middle 4096), height (fam step_mergebuild 4096)) = (25, 25, 25).
 Proof. vm_compute. reflexivity. Qed.
